@@ -871,7 +871,8 @@ class LangServer:
 
         def check_optional(arg, params: dict):
             opt_split = arg.split("=")
-            if len(opt_split) > 1:
+            # `a == b` in a positional argument is a comparison, not `a=`
+            if len(opt_split) > 1 and not (opt_split[1] == "" and len(opt_split) > 2):
                 opt_arg = opt_split[0].strip().lower()
                 for i, param in enumerate(params):
                     param_split = param["label"].split("=")[0]
